@@ -1,4 +1,5 @@
 import PygVerif.Model.Tal
+import PygVerif.Model.Metal
 /-!
 Token-stream codec for templates, values and programs (used by Driver.lean).
 Tokens are separated by single spaces; strings are dotted hex (`-` = empty).
@@ -89,6 +90,37 @@ partial def pNode : P Node := do
 def pNodes : P (List Node) := do
   let n ← pNat
   pRep n pNode
+
+instance : Inhabited MNode := ⟨.data []⟩
+
+partial def pMNode : P MNode := do
+  let t ← tok
+  match t with
+  | "D" => do pure (.data (← pStr))
+  | _ => do
+    let tag ← pStr
+    let atts ← pPairs
+    let orig ← pPairs
+    let cmds ← pCmds
+    let singleton ← pBool
+    let noEnd ← pBool
+    let um ← pOpt pStr
+    let ds ← pOpt pStr
+    let fs ← pOpt pStr
+    let n ← pNat
+    let kids ← pRep n pMNode
+    pure (.elem tag atts orig cmds singleton noEnd um ds fs kids)
+
+def pMNodes : P (List MNode) := do
+  let n ← pNat
+  pRep n pMNode
+
+def pMacros : P (List (Str × MNode)) := do
+  let n ← pNat
+  pRep n (do let k ← pStr; let m ← pMNode; pure (k, m))
+
+def parseMNodes (s : String) : List MNode := (pMNodes.run (s.splitOn " ")).1
+def parseMacros (s : String) : List (Str × MNode) := (pMacros.run (s.splitOn " ")).1
 
 def parseNodes (s : String) : List Node := (pNodes.run (s.splitOn " ")).1
 def parseVal (s : String) : Val := (pVal.run (s.splitOn " ")).1
